@@ -144,7 +144,14 @@ def check_pair(e, v, expected, cx, pool, rnd, variants):
         sv1 = mc.snap_value(v, val)
         mc.jitter(rnd, keep=m)
         if r1 != expected:
-            fails.append(dict(clause="raised" if r1.startswith("E:") else "verdict", variant=var, observed=r1))
+            # what every sub-matcher OBJECT of this very construction says about its sub-value (same objects, same
+            # process state: the verdicts that produced the failure); TLC decides these rows when the failure is localised
+            sub = []
+            for ce, cv in mc.descendants(e, v):
+                obj = env.built.get(id(ce))
+                if obj is not None:
+                    sub.append({"e": ce, "v": cv, "r": mc.verdict(obj, mc.build_value(cv, env))[0]})
+            fails.append(dict(clause="raised" if r1.startswith("E:") else "verdict", variant=var, observed=r1, sub=sub))
         if r2 != r1:
             fails.append(dict(clause="unstable", variant=var, observed="%s then %s" % (r1, r2)))
         if sm0 != sm1:
@@ -174,6 +181,11 @@ def localise_all(failures, pool, rep, rnd):
     owner = []
     for n, f in enumerate(need):
         if f["clause"].startswith("unstable"):
+            continue
+        if "sub" in f:  # collected from the failing construction itself (possibly in a worker process)
+            for row in f["sub"]:
+                sub.append(row)
+                owner.append(n)
             continue
         env = None
         for attempt in range(80):
